@@ -61,14 +61,21 @@ fn mtime_secs(meta: &std::fs::Metadata) -> i64 {
 pub fn discover_local_with_meta(root: &Path) -> Result<MetaMap, Box<dyn std::error::Error>> {
     let mut out = MetaMap::new();
     for rel in discover_local_files(root)? {
-        if let Ok(meta) = std::fs::metadata(root.join(&rel)) {
-            out.insert(
-                rel,
-                FileMeta {
-                    size: meta.len(),
-                    mtime: mtime_secs(&meta),
-                },
-            );
+        match std::fs::metadata(root.join(&rel)) {
+            Ok(meta) => {
+                out.insert(
+                    rel,
+                    FileMeta {
+                        size: meta.len(),
+                        mtime: mtime_secs(&meta),
+                    },
+                );
+            }
+            // Gone between the walk and the stat: no longer part of the tree.
+            Err(e) if e.kind() == std::io::ErrorKind::NotFound => {}
+            // Any other failure (a path longer than PATH_MAX, say) used to drop the file from
+            // the listing without a word: the run then reported success without delivering it.
+            Err(e) => return Err(e.into()),
         }
     }
     Ok(out)
